@@ -138,6 +138,7 @@ struct C11World: World {
       apply_history_step(f, fcfg, *sk, s);
     }
     if (!sk->variant_ok(variant)) { ctx.probe("variant_not_applicable"); return; }
+    if (!sk->state_consistent()) { ctx.probe("image_of_object_in_recorded_inconsistent_state_skipped"); return; }
     Bytes img = sk->ser(variant, 0);
     const std::string want = std::unique_ptr<Sk>(sk->image_source(variant))->obs(false);
     ctx.t(static_cast<u64>(img.size())); ctx.t(fnv1a(img.data(), img.size()));
@@ -224,6 +225,11 @@ struct C11World: World {
           if (alloc_state().refused) {
             // a changed configuration byte can legitimately describe a much larger (empty) sketch, so this is evidence, not a verdict
             ctx.probe(path == 0 ? "corrupt_bytes_request_over_budget" : "corrupt_stream_request_over_budget");
+            // ... except for the quantile families and the t-digest read from a byte buffer: everything they hold is in the image (k is a 16-bit field), so
+            // a request beyond max(64 MiB, 4096 x image) can only come from a count that was not checked against the buffer
+            const std::string fam_name = sk->fam();
+            if (path == 0 && (fam_name.rfind("kll", 0) == 0 || fam_name.rfind("req", 0) == 0 || fam_name.rfind("quantiles", 0) == 0 || fam_name.rfind("tdigest", 0) == 0))
+              ctx.fail(fp("C11", *sk, variant, pname, "unbounded-allocation"), where + ": request of " + std::to_string(alloc_state().refused_max) + " bytes");
           }
           else if (!mark.balanced()) ctx.fail(fp("C11", *sk, variant, pname, "leak"), where + ": " + mark.diff());
           if (!alloc_state().refused && item_state().live.size() != items_before) ctx.fail(fp("C11", *sk, variant, pname, "items-leak"), where);
@@ -272,7 +278,7 @@ struct C09World: World {
     if (static_cast<int>(p.cfg.size()) < 1 + f->cfg_len()) return;
     SimRandom rnd(p.run_seed); RandomScope rs(rnd);
     std::unique_ptr<Sk> orig(f->make(fcfg));
-    struct Shadow { std::unique_ptr<Sk> control; std::unique_ptr<Sk> sk; int variant; };   // control: the in-memory object that was serialized; sk: what came back
+    struct Shadow { std::unique_ptr<Sk> control; std::unique_ptr<Sk> sk; int variant; bool exact; };   // control: the in-memory object that was serialized; sk: what came back
     std::vector<Shadow> shadows;
     Bytes disk; std::vector<Record> records;
     int idx = 0;
@@ -287,7 +293,7 @@ struct C09World: World {
           reseed(idx, 1); apply_history_step(f, fcfg, *sh.control, s);
           reseed(idx, 1); apply_history_step(f, fcfg, *sh.sk, s);
           const bool det = sh.control->deterministic();
-          const std::string want = sh.control->obs(true), got = sh.sk->obs(true);   // logical content / deterministic projection
+          const std::string want = sh.exact ? sh.control->obs(true) : sh.control->obs_stable(), got = sh.exact ? sh.sk->obs(true) : sh.sk->obs_stable();   // logical content / deterministic projection
           if (got != want) ctx.fail(fp("C09", *orig, sh.variant, "continue", "diverged-after-restore"), std::string(step_name(s.kind)) + ": original " + want.substr(0, 300) + " vs restored " + got.substr(0, 300));
           if (!det && sh.sk->obs(false) == sh.control->obs(false)) ctx.probe("randomised_full_obs_equal_after_continue");
           ctx.check(); ctx.probe("continue_compared");
@@ -295,6 +301,7 @@ struct C09World: World {
       } else if (s.kind == OP_CHECKPOINT) {
         int variant = static_cast<int>(s.a) % f->n_variants(); const unsigned h = HEADERS[static_cast<size_t>(s.b) % 6]; const bool via_stream = s.c != 0;
         if (!orig->variant_ok(variant)) { ctx.probe("variant_not_applicable"); variant = 0; }
+        if (!orig->state_consistent()) { ctx.probe("checkpoint_of_object_in_recorded_inconsistent_state_skipped"); idx++; continue; }
         Bytes img = orig->ser(variant, 0);
         // the in-memory object that was serialized, taken after serialize() because serializing may itself repair lazy state (t-digest compresses)
         std::unique_ptr<Sk> control(orig->image_source(variant));
@@ -355,7 +362,7 @@ struct C09World: World {
         check_seam_errors(ctx, "C09", *orig, variant, "roundtrip");
         ctx.check(); ctx.nontrivial = true;
         ctx.probe((std::string("rt_") + orig->fam() + "_v" + std::to_string(variant)).c_str());
-        if (shadows.size() < 3 && restored->can_continue()) { shadows.push_back(Shadow{std::move(control), std::move(restored), variant}); }
+        if (shadows.size() < 3 && restored->can_continue()) { const bool exact = orig->continue_is_exact(variant); if (!exact) ctx.probe("continue_compared_on_stable_projection"); shadows.push_back(Shadow{std::move(control), std::move(restored), variant, exact}); }
       } else if (s.kind == OP_CRASH) {
         ctx.fault("crash");
         // every live object dies; only the log survives
